@@ -767,6 +767,7 @@ def wrapper_gives_up_only_at_reviewed_sites(prog, rep, R):
 
 def check_c06(prog, rep, tier, cfg):
     wrapper_gives_up_only_at_reviewed_sites(prog, rep, "C06.i")
+    format_line_declines_only_by_line_type(prog, rep, "C06.k")
     consolidator_commits_atomically(prog, rep, "C06.j")
     R = "C06.a"
     ws_callers = set()
@@ -1662,6 +1663,49 @@ def first_token_invariant_is_enforced(prog, rep, R):
               where="%s:%d" % (b.file, b.line), instance={"paths_to_root_decision": reached, "give_up_paths_on_MustBreak": gave_up})
 
 
+def format_line_declines_only_by_line_type(prog, rep, R):
+    """C08.l (= C06.k) — a line that format_line does not hand to the search keeps the line breaks and blank lines of the input (the search is
+    the only place where they are clamped and where indentation is decided).  The only lines it declines are verbatim by type: on
+    every path of format_line that returns without calling find_optimal_solution, the decision is a test of the line's *type*
+    (`get_line_type() == AsmInstruction`) and nothing else — not a property of its tokens (ignored first token, length, depth ..): a
+    line that only *starts* inside a `pasfmt off` region goes on behind the `on` comment, and that part is formatted code."""
+    b = prog.body(OLF + "InternalOptimisingLineFormatter::format_line")
+    if not rep.check(b is not None, R, "anchor:format_line", "format_line not found"):
+        return
+    stop = {c.bb for c in b.calls() if norm(c.t.get("resolved") or c.callee or "").endswith("::find_optimal_solution")}
+    from util import family_calls
+    if not stop:
+        stop = {a for a, chain in family_calls(prog, b, lambda c: norm(c.t.get("resolved") or c.callee or "").endswith("::find_optimal_solution"), depth=2) if a is not None}
+    if not rep.check(bool(stop), R, "anchor:format_line->search", "format_line does not call find_optimal_solution any more"):
+        return
+    from table import Table, TooComplex, render
+    try:
+        tb = Table(prog, b, start=0, stop=stop, inline=1, max_paths=8000)
+    except TooComplex as e:
+        rep.fail(R, "format_line:table", "the prologue of format_line can no longer be enumerated: %s" % e)
+        return
+    bad, declined, handed = [], 0, 0
+    for (cons, res), end in zip(tb.rows, tb.ends):
+        if end is not None:
+            handed += 1
+            continue
+        declined += 1
+        other = []
+        for c in cons:
+            t = str(c[1])
+            if t.startswith("le(") or "max_level" in t:
+                continue                                  # log-level tests
+            if "get_line_type(" in t or re.search(r"\.line_type\b", t):
+                continue
+            other.append(t[:60])
+        if other:
+            bad.append(other[0])
+    rep.check(not bad and handed >= 1, R, "declined-lines-are-verbatim-by-type",
+              "format_line declines a line (returns without asking the search) on a path decided by %s, not by the line's type alone: such a line keeps the line breaks, blank lines and missing "
+              "indentation of the input also where it is formatted code (behind a `pasfmt on` comment in the middle of the line)" % sorted(set(bad))[:2],
+              where="%s:%d" % (b.file, b.line), instance={"declining_paths": declined, "paths_to_the_search": handed})
+
+
 def check_c08(prog, rep, tier, cfg):
     line_comment_trailing_blanks(prog, rep, "C08.d")
     # a gap nobody decides keeps the input's blank count: more than one space between two tokens on a line
@@ -1670,6 +1714,7 @@ def check_c08(prog, rep, tier, cfg):
     children_of_voided_lines_are_laid_out(prog, rep, "C08.f")
     consolidator_commits_atomically(prog, rep, "C08.i")
     first_token_invariant_is_enforced(prog, rep, "C08.k")
+    format_line_declines_only_by_line_type(prog, rep, "C08.l")
     # C08.g — every blank of the input is scanned as leading whitespace (and so replaced by the decided counters): the scanner's blank
     # set is {<= U+0020, U+3000} and it stops only in front of a non-blank; a blank that is left over becomes an `Unknown` token and
     # is emitted as it is (shared with C13.b / C01.e)
